@@ -15,9 +15,10 @@ package rest
 //   - answered with an error that is not a timeout  => nothing changed at all;
 //   - a timeout fault fired (outcome unknown)  => complete old or complete new state.
 //
-// Request kinds: PUT / POST / DELETE of a document (admin and as a user through the public API), _bulk_docs with a
+// Request kinds (19): PUT / POST / DELETE of a document (admin and as a user through the public API), _bulk_docs with a
 // new document, an update and a conflicting entry, PUT / DELETE of an attachment through the attachment API,
-// _purge, PUT / DELETE of a user and of a role, POST / DELETE of a session, PUT / DELETE of a local document.
+// _purge, PUT / DELETE of a user and of a role, POST / DELETE of a session, logging out with the session cookie,
+// PUT / DELETE of a local document.
 // Effective access (the consequence of grants) is not judged here: it is the subject of the database-level part and
 // of the findings recorded for it.
 
@@ -35,7 +36,7 @@ import (
 )
 
 var c11rOps = []string{"doc-create", "doc-post", "doc-update", "doc-delete", "doc-update-user", "bulk", "att-put", "att-delete", "purge",
-	"user-create", "user-update", "user-delete", "role-create", "role-delete", "session-create", "session-delete", "local-put", "local-delete"}
+	"user-create", "user-update", "user-delete", "role-create", "role-delete", "session-create", "session-delete", "session-logout", "local-put", "local-delete"}
 
 var c11rAlts = []string{simstore.AltErr, simstore.AltTimeoutApplied, simstore.AltTimeoutLost}
 
@@ -198,7 +199,7 @@ func c11rRun(env *verifsim.Env, raw json.RawMessage) *verifsim.Violation {
 		case "doc-delete":
 			res.code, res.body = n.adminReq("DELETE", "/db/doc0?rev="+doc0Rev, "")
 		case "bulk":
-			res.code, res.body = n.adminReq("POST", "/db/_bulk_docs", fmt.Sprintf(`{"docs":[{"_id":"doc1","channels":["A"],"tok":%q},{"_id":"doc0","_rev":%q,"channels":["A"],"tok":%q},{"_id":"doc2","_rev":"3-bad","channels":["A"],"tok":"never"}]}`, tok, doc0Rev, tok))
+			res.code, res.body = n.adminReq("POST", "/db/_bulk_docs", fmt.Sprintf(`{"docs":[{"_id":"doc1","channels":["A"],"tok":%q},{"_id":"doc0","_rev":%q,"channels":["A"],"tok":%q},{"_id":"doc2","_rev":"3-bad","channels":["A"],"tok":"never"},{"_id":"_local/x1","v":%q},{"_id":"_local/x0","v":"never"}]}`, tok, doc0Rev, tok, tok))
 		case "att-put":
 			req := "/db/doc0/att2?rev=" + doc0Rev
 			res.code, res.body = n.adminReq("PUT", req, "second-attachment-body-"+tok)
@@ -225,6 +226,8 @@ func c11rRun(env *verifsim.Env, raw json.RawMessage) *verifsim.Violation {
 			sessNew = so.SessionID
 		case "session-delete":
 			res.code, res.body = n.adminReq("DELETE", "/db/_session/"+sess0, "")
+		case "session-logout":
+			res.code, res.body, _ = n.pubReq("DELETE", "/db/_session", "", map[string]string{"Cookie": "SyncGatewaySession=" + sess0}, [2]string{}, false)
 		case "local-put":
 			res.code, res.body = n.adminReq("PUT", "/db/_local/x1", `{"v":"new"}`)
 		case "local-delete":
@@ -330,7 +333,7 @@ func c11rRun(env *verifsim.Env, raw json.RawMessage) *verifsim.Violation {
 			return strings.HasPrefix(post["/db/_role/r0"], "404"), "r0 is gone"
 		case "session-create":
 			return post["new-session"] == "200", "the new session exists"
-		case "session-delete":
+		case "session-delete", "session-logout":
 			return strings.HasPrefix(post["/db/_session/"+sess0], "404"), "the session is gone"
 		case "local-put":
 			return strings.HasPrefix(post["/db/_local/x1"], "200") && has("/db/_local/x1", "new"), "the local document exists"
@@ -354,6 +357,22 @@ func c11rRun(env *verifsim.Env, raw json.RawMessage) *verifsim.Violation {
 		for _, row := range rows {
 			id, _ := row["id"].(string)
 			_, failed := row["error"]
+			if strings.HasPrefix(id, "_local/") {
+				// local documents of the request: x1 is new, x0 exists and is sent without its revision (a conflict)
+				key := "/db/" + id
+				if !failed {
+					rev, _ := row["rev"].(string)
+					if !(strings.HasPrefix(post[key], "200") && rev != "" && strings.Contains(post[key], rev) && (id != "_local/x1" || strings.Contains(post[key], tok))) {
+						if unknown {
+							continue
+						}
+						return verifsim.Vf("C11", "success-not-durable", "REST: %s; the entry of %s reports success (revision %q), reading it back gives %s", describe, id, rev, c11rShort(post[key]))
+					}
+				} else if post[key] != pre[key] && !unknown {
+					return verifsim.Vf("C11", "failed-write-left-trace", "REST: %s; the entry of %s reports an error, but the local document changed: %q -> %q", describe, id, c11rShort(pre[key]), c11rShort(post[key]))
+				}
+				continue
+			}
 			key := "/db/" + id + "?revs=true"
 			if !failed {
 				rev, _ := row["rev"].(string)
@@ -367,8 +386,8 @@ func c11rRun(env *verifsim.Env, raw json.RawMessage) *verifsim.Violation {
 				return verifsim.Vf("C11", "failed-write-left-trace", "REST: %s; the entry of %s reports an error, but the document changed: %q -> %q", describe, id, c11rShort(pre[key]), c11rShort(post[key]))
 			}
 		}
-		if len(rows) != 3 {
-			return verifsim.Vf("C11", "success-not-durable", "REST: %s: the answer has %d entries for 3 documents", describe, len(rows))
+		if len(rows) != 5 {
+			return verifsim.Vf("C11", "success-not-durable", "REST: %s: the answer has %d entries for 5 documents", describe, len(rows))
 		}
 		return nil
 	}
